@@ -12,7 +12,7 @@ META = {
 
 def run(ctx):
     return mworld.run_family(
-        ctx, "C38", scenarios=[2, 3], impls=['basicmutable', 'overlay-basic', 'overlay-mutable', 'overlay-empty'],
+        ctx, "C38", scenarios=[2, 3, 8], impls=['basicmutable', 'overlay-basic', 'overlay-mutable', 'overlay-empty'],
         sections=['mutate'],
         select=lambda e: e['ev']['op'] == 'mutate',
         meta_rule='every MutateCallerCopy transition executed via its shortest prefix on 4 world constructions + random walks',
